@@ -385,7 +385,22 @@ fn proto_app(args: &[&str]) -> String {
     model.push(format!("3:0:0:{}", name(std::any::type_name::<ProtocolHash>())));
     model.push(format!("5:0:0:{}", name(std::any::type_name::<ProtocolMismatch>())));
     model.push(format!("7:0:0:{}", name(std::any::type_name::<ProtocolMismatch>())));
+    /// registers one more rule in its `finish`, i.e. AFTER the shared plugin computed the protocol hash (it was added later)
+    struct LatePlugin;
+    impl Plugin for LatePlugin {
+        fn build(&self, _app: &mut App) {}
+        fn finish(&self, app: &mut App) {
+            app.replicate::<CC>();
+        }
+    }
+    let mut late = false;
     for item in args.first().copied().unwrap_or("").split(',').filter(|i| !i.is_empty() && *i != "-") {
+        if item == "late" {
+            // item `late`: a plugin added after RepliconPlugins that registers a replication rule in its own `finish`
+            app.add_plugins(LatePlugin);
+            late = true;
+            continue;
+        }
         macro_rules! comp {
             ($i:expr, $f:ident) => {
                 match $i {
@@ -442,6 +457,11 @@ fn proto_app(args: &[&str]) -> String {
     }
     app.finish();
     let h = bevy_replicon::shared::protocol::verif::value(app.world().resource::<ProtocolHash>());
+    if late {
+        // reaching this point means the late registration was ACCEPTED: report how many rules the app ended up with
+        let n = app.world().resource::<bevy_replicon::shared::replication::replication_rules::ReplicationRules>().len();
+        return format!("{h:x} late-accepted rules={n}");
+    }
     format!("{h:x} {}", model.join(","))
 }
 
